@@ -620,13 +620,13 @@ def batches(rng, tier):
                      "observed through operator[], converted, the released buffer converted again" % (3 if thorough else 2))
     yield Batch("dynarr", dynarr_ops(), exhaustive=True, note="dynamic_array: every size 0..5 x stored prefix")
     stats = {}
-    ops = histories(rng.fork("vec"), 30000 if thorough else 6000, 60 if thorough else 30, stats, 8)
+    ops = histories(rng.fork("vec"), 80000 if thorough else 6000, 60 if thorough else 30, stats, 8)
     yield Batch("vector-histories", ops, kind="history", note="random histories; generator distribution: " + fmt_stats(stats))
     stats = {}
-    ops = buffer_histories(rng.fork("buf"), 15000 if thorough else 3000, 14 if thorough else 10, stats)
+    ops = buffer_histories(rng.fork("buf"), 40000 if thorough else 3000, 14 if thorough else 10, stats)
     yield Batch("buffer-histories", ops, kind="history", note="buffer histories ending in to_raw_vector; distribution: " + fmt_stats(stats))
     stats = {}
-    ops = histories(rng.fork("long"), 3000 if thorough else 600, 120 if thorough else 60, stats, 30)
+    ops = histories(rng.fork("long"), 8000 if thorough else 600, 120 if thorough else 60, stats, 30)
     yield Batch("mixed-long-histories", ops, kind="history", note="longer mixed vector/buffer histories; distribution: " + fmt_stats(stats))
 
 
